@@ -105,3 +105,19 @@ Definition attrval_tie_ok (img : bytes) (addr : N) (idx n : N) (vint : val) : (Z
         | _ => false
         end
     end.
+
+(* ---- Dataset.ReadStrings / ReadCompound (in process through ReadDatasetStrings / ReadDatasetCompound): class and call
+   count.  op 9 = strings, 10 = compound without variable-length members (the walk fetches nothing) ---- *)
+Definition read2_tie_ok (op : N) (img : bytes) (addr : N) (vint : val) : (Z * Z * N * N * N) -> bool :=
+  let sbo := run0 img p_superblock in
+  fun case =>
+    match case with
+    | (cut, k, kind, cls, ncalls) =>
+        match sbo with
+        | Ok sb =>
+            let r := if op =? 9 then let x := run_case img cut k kind (api_read_strings sb TIE_FUEL addr) in (omap (fun _ => tt) (fst x), snd x)
+                     else let x := run_case img cut k kind (api_read_compound sb TIE_FUEL addr (fun _ => true) (fun _ => [])) in (omap (fun _ => tt) (fst x), snd x) in
+            (oclass (fst r) =? cls) && (N.of_nat (snd r) =? ncalls)
+        | _ => false
+        end
+    end.
